@@ -34,6 +34,7 @@ type Semaphore struct {
 	sem          *semaphore.Weighted
 	lock         sync.Mutex
 	realCapacity int64
+	lastDone     chan struct{} // 'done' of the latest SetMaxCount call
 }
 
 // NewSem new a Semaphore
@@ -80,10 +81,19 @@ func (s *Semaphore) SetMaxCount(n int64) (done chan struct{}) {
 	s.lock.Lock()
 	old := s.realCapacity
 	s.realCapacity = n
+	prev := s.lastDone
+	s.lastDone = done
 	s.lock.Unlock()
 
 	go func() {
 		verifGate("sem.resize", old, n)
+		// Apply the changes in the order they were requested: if the Release
+		// of a later grow overtook the Acquire of an earlier shrink (not run
+		// yet, or still waiting for tokens), the semaphore would admit more
+		// than any requested size, or release more than it holds.
+		if prev != nil {
+			<-prev
+		}
 		if n > old {
 			s.sem.Release(n - old)
 		} else if n < old {
